@@ -2,6 +2,7 @@
   Helper lemmas about `PolyVerif.Model.Ply` shared by Props/C04 and Props/C08 (core Lean only).
 -/
 import PolyVerif.Model.Ply
+import PolyVerif.Model.PlySpec
 deriving instance DecidableEq for Except
 
 namespace PolyVerif
@@ -539,6 +540,279 @@ theorem writeHeader_describes_binary_body (c : Coding α) (cfg : WriterCfg) (m :
   · obtain ⟨lp, hlp, hfs⟩ := faceSizeTri_faceProps m
     simp [describedSize, writeHeader, htri, hps, hlp, hlen, hsum, hfs, bind, Option.bind]
   · simp [describedSize, writeHeader, htri, hps, hlen, hsum]
+
+
+
+/-- A concrete coding over `Nat` ("float32" keeps the value mod 2³², 8-bit mod 256, normalisation is `/ 255`, decimal
+printing / parsing of naturals).  Used only to instantiate hypotheses in `example`s (non-vacuity) and to make the
+counterexample theorems concrete. -/
+def toyCoding : Coding Nat where
+  f32 x := UInt32.ofNat x
+  unf32 b := b.toNat
+  f64 x := UInt64.ofNat x
+  unf64 b := b.toNat
+  u8 x := UInt8.ofNat x
+  i32 x := UInt32.ofNat x
+  ofInt i := i.toNat
+  div255 x := x / 255
+  mulInv255 x := x / 255
+  showF x := showNat x
+  showI x := showNat x
+  parseF s := parseDigits s 0
+  parseF64 s := parseDigits s 0
+
+/-! ### the reference encoding of C08 (`PlySpec.Datum.bin`) under the reader -/
+
+open PlySpec
+/-- what decoding a reference-encoded datum yields (binary) -/
+def datumRead (c : Coding α) (dim : Nat) : Datum α → α
+  | .u8 b => c.norm8 dim (c.ofInt b.toNat)
+  | .i32 i => c.ofInt (toInt32 (ofInt32 i))
+  | .f32 x => c.unf32 (c.f32 x)
+  | .f64 x => c.unf64 (c.f64 x)
+
+theorem datum_bin_length (c : Coding α) (e : Endian) (d : Datum α) : (d.bin c e).length = d.ty.size := by
+  cases d <;> simp [Datum.bin, Datum.ty, SType.size, put32_length, put64_length]
+
+theorem dec_datum (c : Coding α) (e : Endian) (dim : Nat) (d : Datum α) (pre post : Bytes) :
+    decScalarBin c e dim d.ty (pre ++ d.bin c e ++ post) pre.length = .ok (datumRead c dim d) := by
+  cases d <;> simp [Datum.bin, Datum.ty, decScalarBin, datumRead, put32_get32, put64_get64, List.append_assoc]
+
+/-- reference encoding, any property order and type mix: decoding at the offset computed from the HEADER types yields
+the `i`-th datum of the record -/
+theorem spec_field_at_offset (c : Coding α) (e : Endian) (dim : Nat) :
+    ∀ (r : List (Datum α)) (pre post : Bytes) (i : Nat) (hi : i < r.length),
+      decScalarBin c e dim r[i].ty (pre ++ (r.map (Datum.bin c e)).flatten ++ post)
+        (pre.length + offsetOf (r.map Datum.ty) i) = .ok (datumRead c dim r[i]) := by
+  intro r
+  induction r with
+  | nil => intro _ _ i hi; simp at hi
+  | cons d r ih =>
+    intro pre post i hi
+    cases i with
+    | zero =>
+      have := dec_datum c e dim d pre ((r.map (Datum.bin c e)).flatten ++ post)
+      simpa [offsetOf, List.append_assoc] using this
+    | succ i =>
+      have := ih (pre ++ d.bin c e) post i (by simpa using hi)
+      simpa [offsetOf, List.append_assoc, datum_bin_length, Nat.add_assoc] using this
+
+theorem spec_record_length (c : Coding α) (e : Endian) (r : List (Datum α)) :
+    ((r.map (Datum.bin c e)).flatten).length = ((r.map Datum.ty).map SType.size).sum := by
+  induction r with
+  | nil => simp
+  | cons d r ih => simp [datum_bin_length, ih]
+
+
+/-- a built reader whose components sit at the header positions `idxs`, all of one type -/
+structure Located (tys : List SType) (b : Built) (idxs : List Nat) : Prop where
+  ty : ∃ t, b.ty = some t ∧ ∀ i ∈ idxs, ∃ h : i < tys.length, tys[i] = t
+  offs : b.offs = idxs.map (offsetOf tys)
+
+/-- what the located readers produce for one record: for each reader the data of its components -/
+def rowOf (c : Coding α) (bl : List (Built × List Nat)) (r : List (Datum α)) : List (List α) :=
+  bl.map (fun p => p.2.filterMap (fun i => (r[i]?).map (datumRead c p.1.names.length)))
+
+theorem readBin_located (c : Coding α) (e : Endian) (tys : List SType) (b : Built) (idxs : List Nat)
+    (hl : Located tys b idxs) (r : List (Datum α)) (hr : r.map Datum.ty = tys) (post : Bytes) :
+    b.readBin c e ((r.map (Datum.bin c e)).flatten ++ post)
+      = .ok (idxs.filterMap (fun i => (r[i]?).map (datumRead c b.names.length))) := by
+  obtain ⟨t, hty, hidx⟩ := hl.ty
+  simp only [Built.readBin, hty, hl.offs]
+  clear hl
+  induction idxs with
+  | nil => simp [pure, Except.pure]
+  | cons i idxs ih =>
+    obtain ⟨hi, hti⟩ := hidx i (by simp)
+    have hlen : r.length = tys.length := by rw [← hr]; simp
+    have hi' : i < r.length := by omega
+    have hf := spec_field_at_offset c e b.names.length r [] post i hi'
+    have hrt : r[i].ty = t := by
+      have : (r.map Datum.ty)[i]'(by simpa using hi') = tys[i] := by simp [hr]
+      simpa [hti] using this
+    simp only [List.nil_append, List.length_nil, Nat.zero_add, hr, hrt] at hf
+    have ih' := ih (fun j hj => hidx j (by simp [hj]))
+    simp [List.mapM_cons, hf, ih', bind, Except.bind, pure, Except.pure, List.getElem?_eq_getElem hi']
+
+/-- THE VERTEX BLOCK OF A REFERENCE-ENCODED FILE (binary, both byte orders): whatever the order and types of the
+properties, the vertex loop of the reader decodes, for every record, exactly the data of the components each located
+reader claims, and leaves the rest of the input untouched -/
+theorem spec_vertex_block (c : Coding α) (e : Endian) (tys : List SType) (bl : List (Built × List Nat))
+    (hbl : ∀ p ∈ bl, Located tys p.1 p.2) :
+    ∀ (verts : List (List (Datum α))) (rest : Bytes), (∀ r ∈ verts, r.map Datum.ty = tys) →
+      readVertsBin c e ((tys.map SType.size).sum) (bl.map (·.1)) verts.length
+          ((verts.map (fun r => (r.map (Datum.bin c e)).flatten)).flatten ++ rest)
+        = .ok (verts.map (rowOf c bl), rest) := by
+  intro verts
+  induction verts with
+  | nil => intro rest _; simp [readVertsBin]
+  | cons r verts ih =>
+    intro rest hty
+    have hr := hty r (by simp)
+    have hlen : ((r.map (Datum.bin c e)).flatten).length = (tys.map SType.size).sum := by
+      rw [spec_record_length, hr]
+    have hrow : (bl.map (·.1)).mapM (fun b => b.readBin c e (((r.map (Datum.bin c e)).flatten ++
+        ((verts.map (fun r => (r.map (Datum.bin c e)).flatten)).flatten ++ rest)).take ((tys.map SType.size).sum)))
+        = .ok (rowOf c bl r) := by
+      rw [List.take_left' hlen]
+      · clear ih hlen
+        induction bl with
+        | nil => simp [rowOf, pure, Except.pure]
+        | cons p bl ihb =>
+          have h1 := readBin_located c e tys p.1 p.2 (hbl p (by simp)) r hr []
+          simp only [List.append_nil] at h1
+          have h2 := ihb (fun q hq => hbl q (by simp [hq]))
+          simp only [rowOf] at h2 ⊢
+          simp [List.mapM_cons, h1, h2, bind, Except.bind, pure, Except.pure]
+    have ih' := ih rest (fun r' hr' => hty r' (by simp [hr']))
+    simp only [List.map_cons, List.flatten_cons, List.length_cons, readVertsBin, List.append_assoc]
+    have hnot : ¬ (((r.map (Datum.bin c e)).flatten ++ ((verts.map (fun r => (r.map (Datum.bin c e)).flatten)).flatten ++ rest)).length
+        < (tys.map SType.size).sum) := by simp [hlen]
+    simp only [hnot, if_false, hrow, bind, Except.bind]
+    rw [List.drop_left' hlen, ih']
+    simp [pure, Except.pure]
+
+
+/-- representable data: the decoded value is the datum's value (`Datum.val`); needs an in-range integer, a float32 /
+float64 that survives its own coding, and a reader that is not the 2-vector (which normalises by `·(1/255)`) -/
+def Datum.Exact (c : Coding α) : Datum α → Prop
+  | .u8 _ => True
+  | .i32 i => -(2 ^ 31 : Int) ≤ i ∧ i < 2 ^ 31
+  | .f32 x => c.unf32 (c.f32 x) = x
+  | .f64 x => c.unf64 (c.f64 x) = x
+
+theorem toInt32_ofInt32' (i : Int) (h : -(2 ^ 31 : Int) ≤ i ∧ i < 2 ^ 31) : toInt32 (ofInt32 i) = i := by
+  simp only [toInt32, ofInt32, UInt32.toNat_ofNat']
+  split <;> omega
+
+theorem datumRead_eq_val (c : Coding α) (dim : Nat) (hdim : dim ≠ 2) (d : Datum α) (h : Datum.Exact c d) :
+    datumRead c dim d = d.val c := by
+  cases d <;> simp_all [datumRead, Datum.val, Datum.Exact, Coding.norm8, toInt32_ofInt32']
+
+/-! ### unclaimed properties get a scalar reader (`addUnclaimed`) -/
+
+theorem buildV1_go_found (binary : Bool) (attr name : Bytes) :
+    ∀ (props : List (Bytes × SType)) (pos : Nat), (∃ p ∈ props, p.1 = name) →
+      ∃ b, buildV1.go binary attr name props pos = some b ∧ b.names = [name] ∧ b.attr = attr := by
+  intro props
+  induction props with
+  | nil => intro _ h; simp at h
+  | cons p ps ih =>
+    intro pos h
+    obtain ⟨n, t⟩ := p
+    by_cases hn : n = name
+    · exact ⟨⟨attr, [name], [pos], if binary then some t else none⟩, by simp [buildV1.go, hn], rfl, rfl⟩
+    · have : ∃ p ∈ ps, p.1 = name := by
+        obtain ⟨q, hq, hqn⟩ := h
+        simp at hq
+        rcases hq with rfl | hq
+        · exact absurd hqn hn
+        · exact ⟨q, hq, hqn⟩
+      obtain ⟨b, hb, h1, h2⟩ := ih (pos + (if binary then t.size else 1)) this
+      exact ⟨b, by simp [buildV1.go, hn, hb], h1, h2⟩
+
+/-- one step of the `addUnclaimed` fold -/
+def unclaimedStep (binary : Bool) (props : List (Bytes × SType)) (acc : List Built) (p : Bytes × SType) : List Built :=
+  if acc.any (fun b => b.claims p.1) then acc
+  else match buildV1 binary props p.1 p.1 with
+    | some b => acc ++ [b]
+    | none => acc
+
+theorem addUnclaimed_eq (binary : Bool) (props : List (Bytes × SType)) (built : List Built) :
+    addUnclaimed binary props built = props.foldl (unclaimedStep binary props) built := rfl
+
+theorem unclaimedStep_mono (binary : Bool) (props : List (Bytes × SType)) (acc : List Built) (p : Bytes × SType) :
+    ∀ b ∈ acc, b ∈ unclaimedStep binary props acc p := by
+  intro b hb
+  simp only [unclaimedStep]
+  split
+  · exact hb
+  · split <;> simp [hb]
+
+theorem foldl_unclaimed_mono (binary : Bool) (props : List (Bytes × SType)) :
+    ∀ (l : List (Bytes × SType)) (acc : List Built), ∀ b ∈ acc, b ∈ l.foldl (unclaimedStep binary props) acc := by
+  intro l
+  induction l with
+  | nil => intro acc b hb; exact hb
+  | cons p l ih => intro acc b hb; exact ih _ b (unclaimedStep_mono binary props acc p b hb)
+
+/-- every reader the fold adds over `l` claims exactly one name, that of a property of `l` -/
+theorem foldl_unclaimed_origin (binary : Bool) (props : List (Bytes × SType)) :
+    ∀ (l : List (Bytes × SType)) (acc : List Built), ∀ b ∈ l.foldl (unclaimedStep binary props) acc,
+      b ∈ acc ∨ ∃ p ∈ l, b.names = [p.1] := by
+  intro l
+  induction l with
+  | nil => intro acc b hb; exact .inl hb
+  | cons p l ih =>
+    intro acc b hb
+    rcases ih _ b hb with h | ⟨q, hq, hqn⟩
+    · simp only [unclaimedStep] at h
+      split at h
+      · exact .inl h
+      · split at h
+        · rename_i b' hb'
+          simp at h
+          rcases h with h | rfl
+          · exact .inl h
+          · refine .inr ⟨p, by simp, ?_⟩
+            simp only [buildV1] at hb'
+            by_cases hex : ∃ q ∈ props, q.1 = p.1
+            · obtain ⟨b'', hb'', hn, _⟩ := buildV1_go_found binary p.1 p.1 props 0 hex
+              rw [hb''] at hb'; simp at hb'; subst hb'; exact hn
+            · exfalso
+              have : ∀ (ps : List (Bytes × SType)) (pos : Nat), (¬ ∃ q ∈ ps, q.1 = p.1) → buildV1.go binary p.1 p.1 ps pos = none := by
+                intro ps
+                induction ps with
+                | nil => intro _ _; simp [buildV1.go]
+                | cons x xs ihx =>
+                  intro pos hne
+                  obtain ⟨n, t⟩ := x
+                  have hn : n ≠ p.1 := fun h => hne ⟨(n, t), by simp, h⟩
+                  simp [buildV1.go, hn]
+                  exact ihx _ (fun ⟨q, hq, hqn⟩ => hne ⟨q, by simp [hq], hqn⟩)
+              rw [this props 0 hex] at hb'; simp at hb'
+        · exact .inl h
+    · exact .inr ⟨q, by simp [hq], hqn⟩
+
+/-- AN UNRECOGNISED PROPERTY GETS ITS OWN SCALAR READER, THROUGH `addUnclaimed`: if no reader built from the configured
+property readers claims the name of the property at header position `i` (names pairwise distinct), the reader list
+`addUnclaimed` returns contains the scalar reader named after the property, located at Σ strides before it -/
+theorem addUnclaimed_adds (binary : Bool) (props : List (Bytes × SType)) (built : List Built)
+    (hnd : (props.map (·.1)).Nodup) (i : Nat) (hi : i < props.length)
+    (hun : ∀ b ∈ built, b.claims props[i].1 = false) :
+    (⟨props[i].1, [props[i].1], [locOf binary props i], if binary then some props[i].2 else none⟩ : Built)
+      ∈ addUnclaimed binary props built := by
+  rw [addUnclaimed_eq]
+  have hsplit : props = props.take i ++ props[i] :: props.drop (i + 1) := by simp
+  have hfirst : ∀ j (hj : j < i), (props[j]'(by omega)).1 ≠ props[i].1 := by
+    intro j hj heq
+    have h2 := (List.pairwise_iff_getElem.mp hnd) j i (by simp; omega) (by simpa using hi) hj
+    exact h2 (by simpa using heq)
+  have hb := buildV1_spec binary props[i].1 props[i].1 props i hi rfl hfirst
+  have key : ∀ (g : List Built → Bytes × SType → List Built) (l : List (Bytes × SType)),
+      l = props.take i ++ props[i] :: props.drop (i + 1) →
+      l.foldl g built = (props.drop (i + 1)).foldl g (g ((props.take i).foldl g built) props[i]) := by
+    intro g l hl; rw [hl, List.foldl_append, List.foldl_cons]
+  rw [key _ props hsplit]
+  apply foldl_unclaimed_mono
+  -- the accumulator before step i does not claim the name
+  have hacc : ∀ b ∈ (props.take i).foldl (unclaimedStep binary props) built,
+      b.claims props[i].1 = false := by
+    intro b hbm
+    rcases foldl_unclaimed_origin binary _ _ _ b hbm with h | ⟨q, hq, hqn⟩
+    · exact hun b h
+    · simp only [Built.claims, hqn]
+      obtain ⟨j, hj, rfl⟩ := List.getElem_of_mem hq
+      have hj' : j < i := by simp at hj; omega
+      have := hfirst j hj'
+      simp [List.getElem_take] at this ⊢
+      exact fun h => this h.symm
+  simp only [unclaimedStep]
+  have hany : ((props.take i).foldl (unclaimedStep binary props) built).any (fun b => b.claims props[i].1) = false := by
+    simp only [List.any_eq_false]
+    intro b hbm
+    simp [hacc b hbm]
+  simp [hany, hb]
 
 
 end PlyLemmas
